@@ -29,6 +29,9 @@ WEIGHTLIT = {"": None, "w2": 0.25}
 def concrete_label(classes, variant=0):
     out = []
     for k, c in enumerate(classes):
+        if c.startswith("K_"):              # keyword class: the word itself
+            out.append(c[2:])
+            continue
         v = VARIANTS.get(c)
         out.append(v[(variant + k) % len(v)] if v and variant else REP[c])
     return "".join(out)
@@ -107,8 +110,62 @@ def project_side(trees, ns):
 
 
 # ------------------------------------------------------------------ building and the round trip
+def nsops_from_acc(acc):
+    """Accession numbers (model, 1-based, one per namespace position; strictly increasing or strictly decreasing)
+    -> a namespace history that produces them: taxa are added in accession order, placeholders fill the unused
+    numbers below the largest one and are removed again *before* the taxon with the largest number is added
+    (a removal followed by an addition); a decreasing sequence is a reversed namespace."""
+    n = len(acc)
+    if list(acc) == list(range(1, n + 1)):
+        return None
+    desc = all(acc[i] > acc[i + 1] for i in range(n - 1))
+    pos_of = dict((a, i) for i, a in enumerate(acc))
+    top = max(acc)
+    ops = []
+    for a in range(1, top):
+        ops.append(["add", pos_of[a]] if a in pos_of else ["tmp"])
+    ops.append(["rm"])
+    ops.append(["add", pos_of[top]])
+    if desc:
+        ops.append(["reverse"])
+    return ops
+
+
+def build_namespace(dendropy, labels, nsops=None):
+    """-> (namespace, taxa) with taxa[i] the Taxon labelled labels[i].  nsops is the history of the namespace:
+    ["add", i] add taxon i, ["tmp"] add a placeholder taxon, ["rm"] remove all placeholders, ["reverse"], ["sort"];
+    taxa not mentioned are added at the end in order."""
+    ns = dendropy.TaxonNamespace()
+    taxa = [None] * len(labels)
+    tmps = []
+    for op in (nsops or []):
+        if op[0] == "add" and taxa[op[1]] is None:
+            taxa[op[1]] = ns.new_taxon(labels[op[1]])
+        elif op[0] == "tmp":
+            tmps.append(ns.new_taxon("zzTmp%d" % len(tmps)))
+        elif op[0] == "rm":
+            for t in tmps:
+                if t in ns:
+                    ns.remove_taxon(t)
+            tmps = []
+        elif op[0] in ("reverse", "sort"):
+            for i in range(len(labels)):
+                if taxa[i] is None:
+                    taxa[i] = ns.new_taxon(labels[i])
+            for t in tmps:
+                ns.remove_taxon(t)
+            tmps = []
+            getattr(ns, op[0])()
+    for i in range(len(labels)):
+        if taxa[i] is None:
+            taxa[i] = ns.new_taxon(labels[i])
+    for t in tmps:
+        ns.remove_taxon(t)
+    return ns, taxa
+
+
 def build_instance(dendropy, inst):
-    ns, taxa = build.make_namespace(dendropy, len(inst["ns"]), labels=list(inst["ns"])) if inst["ns"] else (dendropy.TaxonNamespace(), [])
+    ns, taxa = build_namespace(dendropy, list(inst["ns"]), inst.get("nsops"))
     tl = dendropy.TreeList(taxon_namespace=ns)
     for t in inst["trees"]:
         r = t["rooted"]
